@@ -1,6 +1,6 @@
 (* ScheduleEval.v — hand model of local/schedule.py (with the two `fix:` commits of the worktree):
-     date_in_calendar_entry (196-210), datetime_to_time (216-227),
-     LocalScheduleInterpreter.process_task (428-470) and .eval (472-583).
+     date_in_calendar_entry (216-230), datetime_to_time (236-247),
+     LocalScheduleInterpreter.process_task (448-490) and .eval (492-603)  [line numbers of the fixed worktree].
    The three date matchers are NOT modelled by hand: BacGen.ScheduleFns is their AST translation.
    Model only; proofs are in ScheduleFacts.v.  Values are Unsigned (Z); None = Null. *)
 From Bac Require Import Base PyRt Calendar.
